@@ -60,7 +60,15 @@ func Harness_C10_q_fanout() {
 	if closed < N {
 		conns[closed].Close()
 	}
-	old := bright.GetValue()
+	// the application may answer reads through a value getter that returns something else than
+	// the value being written (a device that is slow to follow): notifications are about the
+	// change that happened, not about what a fresh read would say
+	if verif.Choice("value-getter", 2) == 1 {
+		gv := int(verif.U8("getter-value"))
+		verif.Assume(gv <= 100)
+		bright.OnValueRemoteGet(func() int { return gv })
+	}
+	old := bright.Characteristic.Value.(int)
 	// the requested value is arbitrary, also beyond the declared maximum (100): the stored
 	// value is the clamped one, and "unchanged" refers to the stored value
 	req := int(verif.U8("new"))
@@ -75,7 +83,7 @@ func Harness_C10_q_fanout() {
 	} else {
 		bright.SetValue(req)
 	}
-	verif.Assert(bright.GetValue() == nv, "stored-value-is-the-clamped-request")
+	verif.Assert(bright.Characteristic.Value.(int) == nv, "stored-value-is-the-clamped-request")
 	changed := nv != old
 	for i := 0; i < N; i++ {
 		want := 0
